@@ -69,6 +69,10 @@ T = [
     ("minmax_chains and sum_chains capture source variables", "C07", ["minmax_chains"], "{ sel(X,Y) } :- d(X), e(Y).\nbest(X,L) :- d(X), L = #max { Q : sel(X,Q) }.\n", [["d", 1], ["e", 1]], [["best", 2], ["sel", 2]], [["d(b)", "e(3)"]], {"kind": "set", "voc": "inout", "cost": False}, ["equiv", "c07"], {}),
     ("auto-detection of input and output predicates misses atoms with pools", "C18", None, "h :- p(1;2).\nh(X) :- q(X), not r(X;X+1).\n#show x : s(1;2).\n", None, None, None, None, None, {"kind": "detect"}),
     ("replacing variable equalities merges the anonymous variable", "C11", ["symmetry"], "a :- X = #sum { 1,J : perm(J,_) }, job(Y), Y = _, X > 0.\n", [["perm", 2], ["job", 1]], [["a", 0]], [["perm(1,2)", "job(3)"]], BIJ, ["equiv"], {}),
+    ("replace_assignments inlines equalities with the anonymous variable", "C10", ["duplication"], ":~ left(X); X = _; mid(Y,W); Z = W; right(Z); on; ready. [1@1,X,Z]\ngo :- on; ready; start.\n", [["left", 1], ["mid", 2], ["right", 1], ["on", 0], ["ready", 0], ["start", 0]], [["go", 0]], [["left(1)", "mid(1,2)", "right(2)", "on", "ready"]], BIJ, ["equiv", "c04"], {}),
+    ("domain analysis crashes on choice or disjunction elements", "C03", ["symmetry"], "a(X) ; X > 1 :- d(X).\n{ X < 2 : d(X) }.\n", [["d", 1]], [["a", 1]], None, None, ["c03"], {}),
+    ("minmax_chains crashes on a #sum element with an empty tuple", "C03", ["minmax_chains"], "a(S) :- S = #sum { : d(X) }.\n", [["d", 1]], [["a", 1]], None, None, ["c03"], {}),
+    ("math crashes on a modulo by the constant zero", "C03", ["math"], "b(Y) :- d(X), Y = X \\ 0.\n", [["d", 1]], [["b", 1]], None, None, ["c03"], {}),
     ("minmax_chains makes the result variable a group variable", "C02", ["minmax_chains"], "{ sel(P,V) } :- skill(P,V).\n:~ grp(P); X = #max { V : sel(P,V) }; skill(P,X). [X@1,P]\n", [["grp", 1], ["skill", 2]], [["sel", 2]], [["grp(b)", "skill(b,3)"]], {"kind": "set", "voc": "out", "cost": True}, ["equiv"], {}),
 ]
 
